@@ -8,7 +8,75 @@ THEMES = (("shutdown", None, 0, None, 0), ("shutdown_deep", 0, 0, None, 0))
 FILES = ["Props/C18.v"]
 
 
+def stop_timing(run):
+    """Timing inside one stop(): (a) two ready peers whose DPAs arrive in the same instant are both closed at once and
+    stop() returns then, long before the wait timeout; (b) a peer that never answers its DPR is closed when the wait
+    timeout expires and stop() returns (virtual wall clock and monotonic clock are different clocks, as on a real
+    system).  Judged on the implementation."""
+    import nodesim as NS
+    from vsim import Sim
+    for scenario in ("two DPAs in the same instant", "no DPA at all"):
+        sim = Sim(seed=1, t0=NS.T0)
+        try:
+            sim.script_random([77, 12345])
+            node = sim.node_mod.Node("srv.example.net", "example.net", ip_addresses=["10.0.0.1"], tcp_port=3868)
+            app = sim.app_mod.SimpleThreadingApplication(4, is_auth_application=True, request_handler=lambda a, m: None)
+            node.add_application(app, [node.add_peer("aaa://cli%d.example.net" % i, "example.net") for i in range(2)])
+            node.start()
+            sim.run()
+            rem = []
+            for i in range(2):
+                sim.script_random([1000 + i])
+                r = sim.connect_in()
+                sim.run()
+                r.feed(NS.build_message(dict(kind="cer", host="cli%d.example.net" % i, hbh=1, e2e=1)))
+                sim.run()
+                r.take_messages()
+                rem.append(r)
+            t_stop = sim.now
+            h = sim.spawn(lambda: node.stop(wait_timeout=12), name="stop")
+            sim.run()
+            dprs = [[m for m in r.take_messages() if m.header.is_request and m.header.command_code == 282] for r in rem]
+            if scenario.startswith("two"):
+                for r, d in zip(rem, dprs):
+                    if d:
+                        r.feed(NS.build_message(dict(kind="dpa", host="x", hbh=d[0].header.hop_by_hop_identifier, e2e=d[0].header.end_to_end_identifier)))
+                sim.run()
+                sim.advance(2)
+                closed_after = [r.closed_by_node for r in rem]
+                limit = 11          # stop() still joins its threads (a few seconds), but does not sit out the wait timeout
+            else:
+                closed_after = None
+                limit = 12 + 12     # the wait timeout plus the joins
+            returned_at = None
+            for _ in range(40):
+                if h.done:
+                    returned_at = sim.now - t_stop
+                    break
+                sim.advance(1)
+            run.count(1, [("stop-timing", scenario)])
+            case = {"scenario": "stop(wait_timeout=12) with two ready peers: " + scenario}
+            bad = returned_at is None or returned_at > limit or not all(r.closed_by_node for r in rem) or \
+                (closed_after is not None and not all(closed_after)) or any(len(d) != 1 for d in dprs)
+            if bad or sim.thread_deaths:
+                run.violation("close-after-dpa" if scenario.startswith("two") else "stop-returns", case,
+                              {"stop_returned_after_s": returned_at, "closed_2s_after_the_dpas": closed_after,
+                               "closed_at_the_end": [r.closed_by_node for r in rem], "dprs_sent": [len(d) for d in dprs]},
+                              {"stop_returns_within_s": limit},
+                              what="stop(): " + ("a connection whose DPA has arrived is not closed at once" if scenario.startswith("two")
+                                                 else "the wait timeout does not end the wait"))
+        finally:
+            sim.shutdown()
+
+
 def check(run):
+    orig_obligations = run.obligations
+
+    def obligations_then_more(files):
+        out = orig_obligations(files)
+        stop_timing(run)
+        return out
+    run.obligations = obligations_then_more
     return nodecheck.run(run, "C18", FILES, PROFILE, W, N_QUICK, N_THOROUGH, LENGTH, themes=THEMES)
 
 
